@@ -19,8 +19,10 @@ import DymVerif.Gen.Guards
   rows                               -> number of Msg rows of the regenerated guard table (= routed custom-module message types)
   signer <module.Msg>                -> Go field path of the message's signer (regenerated table)
   own <obj> <actor>                  -> ok          (fixture: object `obj` is owned by actor)
-  fix <what> [a<i>]                  -> ok          (fixture maintenance; `fix buy a<i>`: new buy order of actor i = object 5)
+  fix <what> [a<i>]                  -> ok          (fixture maintenance; `fix buy a<i>`: new buy order of actor i = object 5;
+                                                    `fix tick`: a minute passes; `fix subject`: a new frozen IBC client)
   ext <typeURL> <signer>             -> rej         (any message with an Authority field from a non-authority signer)
+  ext <typeURL> gov                  -> na          (the authority's own run: no verdict on content here, harness monitors only)
   priv <module.Msg> <obj> <signer> <valid:0|1> <obj:a<i>,…|->
                                      -> ok | rej    signer ::= gov | a<i> | m<i>
 -/
